@@ -30,7 +30,12 @@ MANIFEST = dict(
          "indices is to an integer type that holds imax-1 for every imax its path admits; the routine that interpolates under the cumulative "
          "sampler returns the line through the two table entries bracketing the deviate, segment index max(searchsorted-1, 0) for every deviate "
          "up to the last cumulative value (index functions of the search result and the table size decided symbolically per region); effect "
-         "analysis of the function samplers: nothing they write outlives the call and reaches the result other than keyed on the arguments' values.",
+         "analysis of the function samplers: nothing they write outlives the call and reaches the result other than keyed on the arguments' values; "
+         "the cap sampler's call of itself comes back for every radius (path-by-path evaluation: the call's arguments, fed back, must not reach "
+         "the same call under tests some radius in (0,180] satisfies); the grid of a functional density given by xrange/nx has nx points with "
+         "first point xrange[0] and last point xrange[1] (ends of linspace / arange / affine maps of them read off the term); a shortcut path "
+         "of the Cholesky constructor stores a term that scales like a factor (degree 1/2 in cov) unless its tests depend on the scale; the "
+         "range validator accepts only ranges inside the allowed interval (linear feasibility of the tests on every accepting path).",
     note="Not decided: distributional correctness, containment numerically. Trusted: numpy Generator/RandomState APIs, scipy "
          "cumulative_trapezoid, sympy normaliser.",
     technique="static analysis: abstract interpretation over a symbolic term domain (draws as uninterpreted deviates), who-may-call RNG discipline, AST provenance rules",
@@ -46,7 +51,7 @@ GLOBAL_RNG_OK = {"RandomState", "default_rng", "Generator", "SeedSequence"}
 SEMANTIC = ('R19.cap', 'R19.chol', 'R19.gen', 'R19.ind', 'R19.box::randsphere::ra-inside-box', 'R19.box::randsphere::dec-inside-box',
             'R19.box::randsphere::generator-forwarded', 'R19.box::randsphere::xyz-system-converts-same-points',
             'R19.box::randsphere::default-ranges-are-full-sphere', 'R19.box::randsphere::draws-from-passed-generator',
-            'R19.box::esutil.coords.randsphere::nothing-carried-between-calls')
+            'R19.box::esutil.coords.randsphere::nothing-carried-between-calls', 'R19.box::_check_range::outside-allowed-rejected')
 
 
 def run(chk):
@@ -360,13 +365,91 @@ def randsphere(chk, repo):
     cr = repo.func(CO + "_check_range")
     cfgr = cfg_of(cr)
     ok = any(("rng[0] < allowed[0] or rng[1] > allowed[1]", "T") in rules.controlling_tests(cfgr.view(), n) for n in rules.raise_nodes(cfgr))
-    chk.ob("R19.box", "_check_range::outside-allowed-rejected", ok, cr.where(), "ranges outside the allowed interval are rejected")
+    why = ""
+    if not ok:
+        # not spelled that way: decided on the paths of the validator (every path that accepts a range has it inside the interval)
+        ok, why = outside_rejected(repo, cr)
+    chk.ob("R19.box", "_check_range::outside-allowed-rejected", ok, cr.where(), "ranges outside the allowed interval are rejected%s" % why)
     ok, found, okd, foundd = _allowed_intervals(repo, fi, cr, res, {"num": num, "rng": rng}, (r0, r1, d0, d1))
     chk.ob("R19.box", "randsphere::allowed-intervals", ok, fi.where(), "allowed intervals [0,360] and [-90,90] (%s)" % found)
     if okd is not None or ok:
         # (decided on the returned terms; not reported when neither the validations nor the defaults were recognised: the rule
         # above then says so)
         chk.ob("R19.box", "randsphere::default-ranges-are-full-sphere", okd, fi.where(), "a range that is not given stands for the full interval: %s" % foundd)
+
+
+# ---- the validator of the ranges -------------------------------------------------------------------------------------------------
+def _feasible(cons, syms):
+    """the linear constraints [(form, strict)] -- form > 0 resp. form >= 0 over the real symbols -- have a common solution
+    (Fourier-Motzkin elimination, exact over the rationals); None when a form is not linear with rational coefficients"""
+    rows = []
+    for f, strict in cons:
+        try:
+            p_ = sp.Poly(sp.expand(f), *syms)
+        except Exception:
+            return None
+        if p_.total_degree() > 1 or not all(c.is_Rational for c in p_.coeffs()):
+            return None
+        co = [p_.coeff_monomial(x) for x in syms]
+        rows.append((co, p_.coeff_monomial(1), strict))
+    for i in range(len(syms)):
+        pos = [r for r in rows if r[0][i] > 0]
+        neg = [r for r in rows if r[0][i] < 0]
+        rows = [r for r in rows if r[0][i] == 0]
+        for cp, kp, sp_ in pos:
+            for cn, kn, sn in neg:
+                a, b = -cn[i], cp[i]
+                rows.append(([a * x + b * y for x, y in zip(cp, cn)], a * kp + b * kn, sp_ or sn))
+        if len(rows) > 400:
+            return None
+    return all((k > 0) if strict else (k >= 0) for _, k, strict in rows)
+
+
+def outside_rejected(repo, cr):
+    """(True / False / None, text) for: the validator raises for every range [lo, hi] with lo < allowed[0] or hi > allowed[1].
+    Its paths are enumerated with the range and the interval as pairs of symbols; on a path that does not raise, the tests taken
+    (linear comparisons of the four numbers; tests of the kind of the object are independent of them) must be incompatible with
+    both `lo < allowed[0]` and `hi > allowed[1]`"""
+    params = [p for p in cr.params if not p.startswith("*")]
+    if len(params) != 2:
+        return None, " (the validator does not take (range, allowed interval))"
+    r0, r1, a0, a1 = symx.symbols("range_lo", "range_hi", "allowed_lo", "allowed_hi")
+    syms = [r0, r1, a0, a1]
+    paths = _paths_to_self_call(repo, cr, {params[0]: [r0, r1], params[1]: [a0, a1]}, set())
+    if not paths:
+        return None, " (paths of the validator not enumerated)"
+    accepted = 0
+    for path, end in paths:
+        if end[0] == "raises":
+            continue
+        if end[0] != "returns":
+            return None, " (validator not evaluated: %s)" % (end[1],)
+        cons = []
+        for c, val in path:
+            if not isinstance(c, sp.Basic):
+                return None, " (test %s not read)" % (c,)
+            if c.free_symbols and all(str(s_).startswith("B_") for s_ in c.free_symbols):
+                continue
+            if not isinstance(c, (sp.StrictGreaterThan, sp.GreaterThan, sp.StrictLessThan, sp.LessThan)) or not c.free_symbols <= set(syms):
+                return None, " (test %s is not a comparison of the range with the interval)" % c
+            d = (c.lhs - c.rhs) if isinstance(c, (sp.StrictGreaterThan, sp.GreaterThan)) else (c.rhs - c.lhs)
+            strict = isinstance(c, (sp.StrictGreaterThan, sp.StrictLessThan))
+            cons.append((d, strict) if val else (-d, not strict))
+        live = _feasible(cons, syms)
+        if live is None:
+            return None, " (tests of the validator are not linear: %s)" % [str(c) for c, _ in path]
+        if not live:
+            continue
+        accepted += 1
+        for what, out in (("its lower end below the allowed interval", a0 - r0), ("its upper end above the allowed interval", r1 - a1)):
+            f = _feasible(cons + [(out, True)], syms)
+            if f is None:
+                return None, " (not decided)"
+            if f:
+                return False, (": a range with %s is accepted on the path where %s" % (what, " and ".join("%s is %s" % (c, v_) for c, v_ in path) or "no test is made"))
+    if not accepted:
+        return None, " (no path of the validator accepts a range)"
+    return True, " (every path of the validator that accepts a range implies allowed[0] <= range[0] and range[1] <= allowed[1])"
 
 
 def _allowed_intervals(repo, fi, cr, res, args, syms):
@@ -731,6 +814,25 @@ def _value_names(x):
     return {n.id for n in ast.walk(x) if isinstance(n, ast.Name) and id(n) not in skip}
 
 
+def _numeric_constants(repo, fi, names):
+    """those of the names that stand for a number fixed at import: module-level constants of fi's module (a named threshold,
+    `_POLE_DEC = 89.9`) that fi neither takes as a parameter nor binds itself"""
+    if not names:
+        return set()
+    local = {p.lstrip("*") for p in fi.params} | {n.id for n in ast.walk(fi.node) if isinstance(n, ast.Name) and isinstance(n.ctx, (ast.Store, ast.Del))}
+    out = set()
+    se = symx.SymEval(repo)
+    for nm in names - local:
+        try:
+            v = se.module_const(fi.module, nm)
+            v = symx._as_expr(v) if symx._is_expr(v) else None
+        except Exception:
+            v = None
+        if v is not None and v.is_number and v.is_real:
+            out.add(nm)
+    return out
+
+
 def _polar_predicates(repo, fi, param):
     """the maximal boolean expressions of fi that depend on nothing but the centre latitude `param` (comparisons of it, or of its
     absolute value, with literals): [(node, set of latitudes where it holds or None, [(sub-condition node, its set or None), ...])]"""
@@ -743,7 +845,7 @@ def _polar_predicates(repo, fi, param):
         if isinstance(x, ast.UnaryOp) and not isinstance(x.op, ast.Not):
             continue
         cmps = [y for y in ast.walk(x) if isinstance(y, ast.Compare)]
-        if _value_names(x) != {param} or not cmps:
+        if _value_names(x) - _numeric_constants(repo, fi, _value_names(x) - {param}) != {param} or not cmps:
             continue
         if not all(isinstance(o, (ast.Lt, ast.LtE, ast.Gt, ast.GtE)) for y in cmps for o in y.ops):
             continue
@@ -770,32 +872,39 @@ def _polar_predicates(repo, fi, param):
     return out
 
 
-def _rel_key(c):
-    """canonical form of a relational: (kind, normalised lhs-rhs); a positive constant factor does not matter"""
+def _rel_atom(c):
+    """(atom, polarity) of a relational: the atom is `d > 0`, `d >= 0` or `d == 0` with d = lhs - rhs scaled to a positive
+    leading coefficient, so that a relation and its negation (`p > PI` and `p <= PI`), its mirrored spelling (`PI < p`) and a
+    positive multiple share the atom"""
     if isinstance(c, (sp.StrictGreaterThan, sp.GreaterThan)):
-        d, kind = c.lhs - c.rhs, type(c).__name__
-    elif isinstance(c, sp.StrictLessThan):
-        d, kind = c.rhs - c.lhs, "StrictGreaterThan"
-    elif isinstance(c, sp.LessThan):
-        d, kind = c.rhs - c.lhs, "GreaterThan"
+        d, strict = c.lhs - c.rhs, isinstance(c, sp.StrictGreaterThan)
+    elif isinstance(c, (sp.StrictLessThan, sp.LessThan)):
+        d, strict = c.rhs - c.lhs, isinstance(c, sp.StrictLessThan)
     elif isinstance(c, (sp.Eq, sp.Ne)):
-        d, kind = c.lhs - c.rhs, type(c).__name__
+        d, strict = c.lhs - c.rhs, None
     else:
-        return ("cond", sp.srepr(c))
+        return ("cond", sp.srepr(c)), True
     d = sp.expand(d)
+    pol = True
     try:
         syms = sorted(d.free_symbols, key=str)
         lc = sp.Poly(d, *syms).LC() if syms else sp.Integer(1)
         if lc.is_number and lc != 0:
-            if lc.is_positive:
-                d = sp.expand(d / lc)
-            elif kind in ("Equality", "Unequality"):
+            if lc.is_positive or strict is None:
                 d = sp.expand(d / lc)
             else:
-                d = sp.expand(d / -lc)
+                # d > 0  <=>  not (-d >= 0);  d >= 0  <=>  not (-d > 0)
+                d = sp.expand(d / lc)           # (= -d scaled by the positive number -lc)
+                strict, pol = (not strict), False
     except Exception:
         pass
-    return (kind, sp.srepr(d))
+    if strict is None:
+        return ("Equality", sp.srepr(d)), isinstance(c, sp.Eq)
+    return ("StrictGreaterThan" if strict else "GreaterThan", sp.srepr(d)), pol
+
+
+def _rel_key(c):
+    return _rel_atom(c)[0]
 
 
 def _cond_atoms(e, acc):
@@ -837,7 +946,10 @@ def _cond_value(c, val):
         return any(_cond_value(a, val) for a in c.args)
     if isinstance(c, sp.Not):
         return not _cond_value(c.args[0], val)
-    return val[_rel_key(c) if isinstance(c, sp.Rel) else ("cond", sp.srepr(c))]
+    if isinstance(c, sp.Rel):
+        k, pol = _rel_atom(c)
+        return val[k] if pol else (not val[k])
+    return val[("cond", sp.srepr(c))]
 
 
 def _select(e, val):
@@ -1119,6 +1231,195 @@ def generator_forwarded(chk, repo, rule, fi, param):
                % (fi.name, param, len(hand), sorted({h[1] for h in hand})), nontrivial=bool(hand))
 
 
+# --------------------------------------------------------------------------
+# the rotated construction calls the sampler again: that call must come back
+#
+# "the requested number of points is always returned" for every centre and every radius up to 180 degrees: a sampler that calls
+# itself must, with the arguments of that call, end on a construction that draws the points without calling itself again.  The
+# function is evaluated one path at a time (every test the symbolic arguments leave open is taken both ways, the same test the
+# same way along a path); a path that reaches a call of the function itself stops there with the arguments of the call as terms.
+# The function is then evaluated with exactly those arguments: a path that reaches the call again with the same arguments, under
+# tests that hold for some admissible radius, repeats itself for ever (RecursionError instead of points).
+# --------------------------------------------------------------------------
+
+class _Recursed(Exception):
+    pass
+
+
+class _PathEnv(_RefEnv):
+    def truth(self, t):
+        v = super().truth(t)
+        if v is True or v is False or not isinstance(v, sp.Basic):
+            return v
+        se = self.se
+        key = sp.srepr(v)
+        if key not in se.forced:
+            se.forced[key] = True
+            se.trail.append(key)
+        se.path.append((v, se.forced[key]))
+        return se.forced[key]
+
+    def exec_stmt(self, st, cond):
+        if isinstance(st, ast.Raise):
+            self.se.raised = True       # (every test on the way was taken one way: the path ends here)
+        return super().exec_stmt(st, cond)
+
+    def call(self, c, stmt_level=False):
+        d = dotted_name(c.func)
+        if d and d.split(".")[0] not in self.vars and d.split(".")[0] not in self.pins:
+            tgt = self.se.rec_target
+            if self.se.repo.resolve_name(self.mod, d) == tgt.qualname and not any(isinstance(a, ast.Starred) for a in c.args) \
+                    and not any(k.arg is None for k in c.keywords):
+                params = [p for p in tgt.params if not p.startswith("*")]
+                bind = {p_: self.ev(a) for p_, a in zip(params, c.args)}
+                bind.update({k.arg: self.ev(k.value) for k in c.keywords})
+                self.se.reached = (list(self.se.path), bind, self.where(c))
+                raise _Recursed()
+        return super().call(c, stmt_level)
+
+
+class _PathEval(_RefEval):
+    def run_path(self, fi, args):
+        env = _PathEnv(self, fi, fi.module, dict(args), {}, depth=0)
+        env.pins = {}
+        for p in fi.params:
+            pn = p.lstrip("*")
+            if pn not in env.vars and pn in fi.defaults:
+                env.vars[pn] = env.ev(fi.defaults[pn])
+        rets = env.exec_body(fi.node.body, sp.true)
+        env.finish_returns(rets)
+        return env.result
+
+
+def _paths_to_self_call(repo, fi, args, opaque, limit=24):
+    """every path of fi under the arguments: [(tests taken [(condition, value)], ('calls-itself', arguments, where) | ('returns', value)
+    | ('raises', None) | ('not-evaluated', why))]; None when there are more than `limit` paths"""
+    out = []
+    work = [{}]
+    while work:
+        forced = work.pop()
+        if len(out) + len(work) > limit:
+            return None
+        se = _PathEval(repo, opaque=opaque)
+        se.forced, se.trail, se.path, se.reached, se.rec_target, se.raised = dict(forced), [], [], None, fi, False
+        try:
+            end = ("returns", se.run_path(fi, args))
+            if se.raised:
+                end = ("raises", None)
+        except _Recursed:
+            end = ("calls-itself", se.reached[1], se.reached[2])
+        except Exception as ex:         # a construct the engine does not model (or sympy gave up): no verdict for the rules reading this
+            end = ("not-evaluated", "%s: %s" % (type(ex).__name__, str(ex)[:120]))
+        path = se.reached[0] if end[0] == "calls-itself" else list(se.path)
+        taken = dict(forced)
+        for key in se.trail:
+            alt = dict(taken)
+            alt[key] = False
+            work.append(alt)
+            taken[key] = True
+        out.append((path, end))
+    return out
+
+
+def _same_arguments(a, b):
+    if set(a) != set(b):
+        return False
+    for k in a:
+        x, y = a[k], b[k]
+        if isinstance(x, symx.Opaque) and isinstance(y, symx.Opaque):
+            if x.what != y.what:
+                return False
+        elif symx._is_expr(x) and symx._is_expr(y):
+            if sp.simplify(symx._as_expr(x) - symx._as_expr(y)) != 0:
+                return False
+        elif type(x) is not type(y) or x != y:
+            return False
+    return True
+
+
+def _where_satisfied(path, domain):
+    """the part of the domain {symbol: set} on which every test of the path has the value taken: a set of values of the single
+    numeric symbol the tests read (the others have none), True when no test reads one, None when not decided.  Tests on
+    uninterpreted booleans are independent of the numbers (either value possible)"""
+    conds = []
+    for c, val in path:
+        if not isinstance(c, sp.Basic):
+            return None
+        if all(isinstance(s_, sp.Symbol) and str(s_).startswith("B_") for s_ in c.free_symbols) and c.free_symbols:
+            continue
+        conds.append(c if val else sp.Not(c))
+    syms = set().union(*[c.free_symbols for c in conds]) if conds else set()
+    if not syms:
+        try:
+            return None if not all(c in (sp.true, sp.false) for c in conds) else all(bool(c) for c in conds)
+        except Exception:
+            return None
+    if len(syms) != 1 or not syms <= set(domain):
+        return None
+    x = next(iter(syms))
+    try:
+        where = domain[x]
+        for c in conds:
+            where = where.intersect(c.as_set())
+        return where
+    except Exception:
+        return None
+
+
+def recursion_returns(repo, fi, args, domain, opaque):
+    """(True / False / None, text): every call of fi by itself comes back (see above)"""
+    first = []
+    for dorot in (True, False):
+        paths = _paths_to_self_call(repo, fi, dict(args, dorot=dorot) if "dorot" in [p.lstrip("*") for p in fi.params] else dict(args), opaque)
+        if paths is None:
+            return None, "too many paths"
+        for path, end in paths:
+            if end[0] == "not-evaluated":
+                return None, "path not evaluated: %s" % end[1]
+            if end[0] == "calls-itself" and not any(_same_arguments(end[1], b) for b, _ in first):
+                first.append((end[1], end[2]))
+    if not first:
+        return True, "the sampler does not call itself"
+    shown = lambda b: ", ".join("%s=%s" % (k, b[k]) for k in sorted(b) if not isinstance(b[k], symx.Opaque))
+    und = None
+    for bind, where in first:
+        cur, depth = bind, 0
+        seen = [bind]
+        while cur is not None and depth < 3:
+            depth += 1
+            paths = _paths_to_self_call(repo, fi, dict(cur), opaque)
+            if paths is None:
+                return None, "too many paths"
+            nxt = None
+            for path, end in paths:
+                if end[0] == "not-evaluated":
+                    und = und or "the call %s(%s) at %s was not evaluated: %s" % (fi.name, shown(cur), where, end[1])
+                    continue
+                if end[0] != "calls-itself":
+                    continue
+                sat = _where_satisfied(path, domain)
+                if sat is False or sat == sp.S.EmptySet:
+                    continue
+                if sat is None:
+                    und = und or "whether the call %s(%s) calls %s again is not decided (tests %s)" % (fi.name, shown(cur), fi.name, [str(c) for c, _ in path][:4])
+                    continue
+                if any(_same_arguments(end[1], b) for b in seen):
+                    on = "" if sat is True else " for %s in %s" % (", ".join(sorted({str(s_) for c, _ in path for s_ in c.free_symbols if s_ in domain})) or "arguments", sat)
+                    return False, ("the call %s(%s) at %s calls %s again with the same arguments%s (tests taken: %s): the recursion never reaches the construction that "
+                                   "draws the points, so the call ends in RecursionError instead of returning the requested points"
+                                   % (fi.name, shown(cur), where, fi.name, on, ", ".join("%s is %s" % (c, v_) for c, v_ in path) or "none"))
+                nxt = end[1]
+            if nxt is not None:
+                seen.append(nxt)
+            cur = nxt
+        if cur is not None:
+            und = und or "the chain of self-calls from %s is longer than 3" % where
+    if und:
+        return None, und
+    return True, "%d call(s) of %s by itself, each of which ends on a path that draws the points without a further self-call (%s)" \
+        % (len(first), fi.name, "; ".join("%s(%s)" % (fi.name, shown(b)) for b, _ in first))
+
+
 def _try_run(se, fi, args, flags):
     try:
         return se.run(fi, args, flags), None
@@ -1159,6 +1460,11 @@ def randcap(chk, repo):
     args = {"nrand": nrand, "ra": ra, "dec": dec, "rad": rad, "rng": rng}
     # ---- reproducibility: the recursive / helper calls that draw are handed the passed generator
     generator_forwarded(chk, repo, R, fi, "rng")
+    # ---- the requested points are returned for every radius: the sampler's call of itself comes back
+    okr, whyr = recursion_returns(repo, fi, dict(args, get_radius=True), {rad: sp.Interval.Lopen(0, 180), dec: sp.Interval(-90, 90), ra: sp.Interval(0, 360)},
+                                  _opaque(repo, "atbound", "atbound2", "rotate"))
+    chk.ob(R, "randcap::self-call-returns", okr, w, "for every centre and every radius up to 180 degrees the points are returned: a call of randcap by itself must end on the "
+           "construction that draws them (%s)" % whyr)
 
     def unrec(keys, why):
         for k in keys:
@@ -1647,6 +1953,7 @@ class Mini:
         # run per combination; a test met again (same statement) keeps its value
         self.fork = None                    # (function, line, column) of an if statement -> arm taken on this path; None: no exploration
         self.fork_trail = []
+        self.fork_leaves = {}               # the same key -> the leaves of the test as terms (see test_leaves), where it was met
         self.entries = []                   # (qualified name, object state on entry) of every function evaluated
         self.depth = 0                      # nesting of followed calls; `at`: the statement of the outermost function being evaluated
         self.at = None
@@ -1835,6 +2142,7 @@ class Mini:
                     if key not in self.fork:
                         self.fork[key] = True
                         self.fork_trail.append(key)
+                    self.fork_leaves[key] = (norm(st.test), self.test_leaves(st.test, env, fi))
                     t = self.fork[key]
                 else:
                     raise NoVerdict("test `%s` at %s is not decided by the flags" % (norm(st.test), fi.where(st)))
@@ -2077,6 +2385,29 @@ class Mini:
         if isinstance(v, sp.Basic) and v.is_number:
             return bool(v != 0)
         return None
+
+    def test_leaves(self, t, env, fi):
+        """what a test reads, as terms: [("truth", term) | ("cmp", operator name, lhs, rhs) | ("type", None) | None], one entry per
+        leaf of its and/or/not structure; ("type", None): a test of the kind of an object (isinstance, hasattr, callable); None:
+        a leaf that was not evaluated"""
+        if isinstance(t, ast.BoolOp):
+            return [x for v in t.values for x in self.test_leaves(v, env, fi)]
+        if isinstance(t, ast.UnaryOp) and isinstance(t.op, ast.Not):
+            return self.test_leaves(t.operand, env, fi)
+        try:
+            if isinstance(t, ast.Compare):
+                if len(t.ops) != 1:
+                    return [None]
+                a, b = self.ev(t.left, env, fi), self.ev(t.comparators[0], env, fi)
+                if a is UNK or b is UNK:
+                    return [None]
+                return [("cmp", type(t.ops[0]).__name__, term(a), term(b))]
+            if isinstance(t, ast.Call) and self.callee_name(t, env, fi) in ("isinstance", "hasattr", "callable", "issubclass"):
+                return [("type", None)]
+            v = self.ev(t, env, fi)
+            return [None] if v is UNK else [("truth", term(v))]
+        except (NoVerdict, _Raised):
+            return [None]
 
     def free_atom(self, op, a, b):
         """truth of a comparison of two input terms on the explored path (None when paths are not explored or the operands are
@@ -2718,6 +3049,10 @@ def generator(chk, repo):
     fi = repo.func(RA + "Generator.__init__")
     ok, found = _stored_generator(repo, fi)
     chk.ob(R, fi.qualname + "::keeps-passed-generator", ok, fi.where(), "self.rng is the passed generator, or a seeded RandomState when none is given (%s)" % found)
+    ok, found = _functional_grid(repo, fi)
+    chk.ob(R, fi.qualname + "::functional-grid-spans-xrange", ok, fi.where(),
+           "for a functional density given with xrange=[xmin,xmax] and nx= the grid is nx points reaching from xmin to xmax, both included (the table is "
+           "normalised over the whole range and u=1 maps to xmax): %s" % found)
 
 
 # ---- the inverse interpolation itself ----------------------------------------------------------------------------------------
@@ -2872,6 +3207,93 @@ def _stored_generator(repo, fi):
     return (None if any(v is None for v in verdicts) else True), "; ".join(found)
 
 
+def _grid_ends(t):
+    """(first element, last element, number of elements, None) of a grid term read off its construction, or (None, None, None, why
+    not); library facts: numpy.linspace(a, b, n) has n points from a to b, b included unless endpoint is false; numpy.arange(a, b,
+    step) stops BEFORE b; numpy.arange(n) is 0 .. n-1; an affine map of a grid maps its ends"""
+    n = fname(t)
+    plain = [a for a in t.args if not fname(a).startswith("KW_")] if isinstance(t, sp.Basic) else []
+    kws = {fname(a)[3:]: a.args[0] for a in t.args if fname(a).startswith("KW_")} if isinstance(t, sp.Basic) else {}
+    if n == "numpy.linspace":
+        names = ["start", "stop", "num", "endpoint"]
+        if len(plain) > 4 or set(kws) - set(names) - {"dtype"} or any(k in kws for k in names[:len(plain)]):
+            return None, None, None, "linspace arguments %s" % str(t)[:80]
+        a = dict(zip(names, plain))
+        a.update({k: v for k, v in kws.items() if k in names})
+        if "start" not in a or "stop" not in a:
+            return None, None, None, "linspace arguments %s" % str(t)[:80]
+        num = a.get("num", sp.Integer(50))
+        ep = a.get("endpoint", sp.Symbol("True"))
+        if ep == sp.Symbol("True"):
+            return a["start"], a["stop"], num, None
+        if ep == sp.Symbol("False"):
+            return a["start"], a["stop"] - (a["stop"] - a["start"]) / num, num, None
+        return None, None, None, "linspace endpoint=%s" % ep
+    if n == "numpy.arange" and not kws:
+        if len(plain) == 1:
+            return sp.Integer(0), plain[0] - 1, plain[0], None
+        if len(plain) in (2, 3):
+            return plain[0], "before", plain[1], None
+    if isinstance(t, (sp.Add, sp.Mul)):
+        grids = [a for a in t.args if a.free_symbols and _grid_ends(a)[3] is None]
+        if len(grids) == 1:
+            g = grids[0]
+            rest = t.func(*[a for a in t.args if a is not g])
+            if not any(fname(x) in ("numpy.linspace", "numpy.arange") for x in sp.preorder_traversal(rest)):
+                first, last, num, _ = _grid_ends(g)
+                if last == "before":
+                    return None, None, None, "arithmetic on a half-open arange %s" % str(t)[:80]
+                op = (lambda z: z + rest) if isinstance(t, sp.Add) else (lambda z: z * rest)
+                return op(first), op(last), num, None
+    return None, None, None, "grid construction %s" % str(t)[:100]
+
+
+def _functional_grid(repo, fi):
+    """(True / False / None, what was found) for: Generator.__init__ called with a function, no x=, and xrange= / nx= stores as
+    self.xinput a grid whose first point is xrange[0], whose last point is xrange[1] and which has nx points"""
+    xr, nx = sp.Symbol("xrange"), sp.Symbol("nx")
+    bind = {p: sp.Symbol(p) for p in fi.params if p != "self" and not p.startswith("*")}
+    bind.update({"x": None, "xrange": xr, "nx": nx, "method": "accum", "cumulative": False})
+    bind = {k: v for k, v in bind.items() if k in fi.params}
+    if not {"x", "xrange", "nx"} <= set(bind):
+        return None, "the constructor does not take x=, xrange=, nx="
+    paths = mini_forks(repo, fi.qualname, bind)
+    if not paths:
+        return None, "constructor paths not enumerated"
+    lo, hi = AT_(xr, 0), AT_(xr, 1)
+    verdicts, found = [], []
+    for end, mv in paths:
+        if end == "raised":
+            continue            # (an array density without x= is refused)
+        g = mv.state.get("self.xinput")
+        if not isinstance(g, sp.Basic) or (end is not None and (mv.at is None or _stored_later(repo, fi, mv.at, "xinput"))):
+            verdicts.append(None)
+            found.append("grid not evaluated: %s" % (end if end is not None else g,))
+            continue
+        first, last, num, why = _grid_ends(g)
+        found.append("self.xinput = %s" % str(g)[:160])
+        if why is not None:
+            verdicts.append(None)
+            found[-1] += " (%s: not read)" % why
+        elif last == "before":
+            # arange(start, stop, step): every element is below stop
+            if teq(num, hi):
+                verdicts.append(False)
+                found[-1] += ": numpy.arange stops before its stop value, so the grid does not contain xrange[1]"
+            else:
+                verdicts.append(None)
+        else:
+            oks = [teq(first, lo), teq(last, hi), teq(num, nx)]
+            verdicts.append(all(oks))
+            if not all(oks):
+                found[-1] += ": its %s" % ", ".join("%s is %s" % (nm, str(v_)[:60]) for nm, v_, o in zip(("first point", "last point", "number of points"), (first, last, num), oks) if not o)
+    if not verdicts:
+        return None, "no path of the constructor accepts a function with xrange= and nx="
+    if any(v is False for v in verdicts):
+        return False, "; ".join(found)
+    return (None if any(v is None for v in verdicts) else True), "; ".join(found)
+
+
 def _stored_later(repo, fi, at, attr):
     """self.<attr> may be stored after the evaluation of the method fi stopped in statement `at`: a store at or below that
     statement, in another method of the class, or through setattr / __dict__"""
@@ -2965,6 +3387,126 @@ def _resolve_rowadd(mv, t):
     return t
 
 
+# ---- how a term scales with one of its inputs ----------------------------------------------------------------------------------
+# A lower-triangular factor M of cov (M M^T = cov) is positively homogeneous of degree 1/2 in cov: the factor of c*cov is sqrt(c) M
+# for every c > 0.  The degree of a term is read off its structure (library facts: element / diagonal / triangle selections,
+# transposes, reductions by sum / max / min and absolute values are homogeneous of degree 1 in their operand; square roots and the
+# Cholesky factor halve the degree; products add degrees; shapes and sizes do not depend on the scale).
+ANY_DEGREE = "any"          # the term is zero: homogeneous of every degree
+SCALE_KEEPS = {"numpy.diag", "numpy.diagonal", "numpy.diagflat", "numpy.tril", "numpy.triu", "numpy.transpose", "numpy.atleast_1d", "numpy.atleast_2d",
+               "numpy.abs", "numpy.absolute", "numpy.fabs", "numpy.asarray", "numpy.array", "numpy.ravel", "numpy.squeeze", "numpy.negative", "numpy.sum",
+               "numpy.trace", "numpy.max", "numpy.min", "numpy.amax", "numpy.amin", "numpy.mean", "numpy.cumsum", "numpy.diff",
+               "T", "AT", "SLICE", "ATCOL", "COL", "RESHAPE", "CAST", "CUMSUM", "DIFF", "ATTR_T", "ATTR_real",
+               "M_copy", "M_diagonal", "M_ravel", "M_flatten", "M_squeeze", "M_transpose", "M_sum", "M_trace", "M_max", "M_min", "M_mean", "M_cumsum"}
+SCALE_HALVES = {"numpy.sqrt", "math.sqrt", "CHOL", "scipy.linalg.sqrtm"}
+SCALE_ADDS = {"DOT", "numpy.outer", "numpy.kron", "numpy.multiply", "numpy.inner"}
+SCALE_FREE = {"SHAPE", "SIZE", "LEN", "numpy.shape", "numpy.ndim", "numpy.size", "ATTR_shape", "ATTR_size", "ATTR_ndim", "ATTR_dtype",
+              "numpy.zeros_like", "numpy.ones_like", "numpy.empty_like", "numpy.isfinite", "numpy.isnan", "numpy.sign"}
+TRUTH_REDUCERS = {"numpy.any", "numpy.all", "M_any", "M_all", "numpy.count_nonzero", "numpy.flatnonzero", "numpy.nonzero"}
+
+
+def scale_degree(t, s):
+    """d when the term t is positively homogeneous of degree d in the input s (t with c*s for s is c^d * t, every c > 0), ANY_DEGREE
+    when t is zero, None when that is not read off the term"""
+    t = sp.sympify(t)
+    if t == 0:
+        return ANY_DEGREE
+    if not t.has(s):
+        return sp.Integer(0)
+    if t == s:
+        return sp.Integer(1)
+    n = fname(t)
+    if n in SCALE_FREE:
+        return sp.Integer(0)
+    if isinstance(t, sp.Add):
+        ds = [scale_degree(a, s) for a in t.args]
+        if any(d is None for d in ds):
+            return None
+        ds = {d for d in ds if d != ANY_DEGREE}
+        return ANY_DEGREE if not ds else (ds.pop() if len(ds) == 1 else None)
+    if isinstance(t, sp.Mul):
+        ds = [scale_degree(a, s) for a in t.args]
+        if any(d is None for d in ds):
+            return None
+        return ANY_DEGREE if ANY_DEGREE in ds else sum(ds, sp.Integer(0))
+    if isinstance(t, sp.Pow):
+        d = scale_degree(t.args[0], s)
+        if d is None or t.args[1].has(s) or not t.args[1].is_number:
+            return None
+        return d if d == ANY_DEGREE else d * t.args[1]
+    if not t.args or any(a.has(s) for a in t.args[1:] if n not in SCALE_ADDS):
+        return None
+    if n in SCALE_KEEPS:
+        return scale_degree(t.args[0], s)
+    if n in SCALE_HALVES:
+        d = scale_degree(t.args[0], s)
+        return d if d in (None, ANY_DEGREE) else d / 2
+    if n in SCALE_ADDS and len(t.args) == 2:
+        ds = [scale_degree(a, s) for a in t.args]
+        if any(d is None for d in ds):
+            return None
+        return ANY_DEGREE if ANY_DEGREE in ds else ds[0] + ds[1]
+    if n == "numpy.linalg.inv":
+        d = scale_degree(t.args[0], s)
+        return d if d in (None, ANY_DEGREE) else -d
+    return None
+
+
+def scale_free_test(leaf, s):
+    """the truth of a test leaf (Mini.test_leaves) is the same for s and c*s, every c > 0: a test of the kind of an object, the
+    truth / any / all / non-zero count of a homogeneous term, a comparison of two terms of the same degree (zero has every degree)"""
+    if leaf is None:
+        return False
+    if leaf[0] == "type":
+        return True
+    if leaf[0] == "truth":
+        t = leaf[1]
+        if fname(t) in TRUTH_REDUCERS and t.args and not any(a.has(s) for a in t.args[1:]):
+            t = t.args[0]
+        return scale_degree(t, s) is not None
+    da, db = scale_degree(leaf[2], s), scale_degree(leaf[3], s)
+    return da is not None and db is not None and (da == db or ANY_DEGREE in (da, db))
+
+
+def _stored_factor(repo, fi, paths, cov_s):
+    """(True / False / None, text) for: on every path of the constructor that accepts its arguments the stored M is the Cholesky
+    factor of the stored covariance.  A path is M = cholesky(cov) itself, or -- behind a test the arguments leave open (a shortcut
+    for covariances of a special form or size) -- another term: that one is refuted when it does not scale like a factor (degree
+    1/2) although none of the tests on its path depends on the scale of cov; it is not decided otherwise"""
+    if not paths:
+        return None, "constructor paths not enumerated"
+    verdicts, texts = [], []
+    for end, mv in paths:
+        if end == "raised":
+            continue
+        M, cv = mv.state.get("self.M"), mv.state.get("self.cov")
+        tests = [mv.fork_leaves.get(k, ("?", [None])) for k in mv.fork]
+        on = " and ".join("%s(%s)" % ("" if mv.fork[k] else "not ", mv.fork_leaves.get(k, ("?",))[0]) for k in mv.fork) or "every input"
+        if end is not None and (not isinstance(M, sp.Basic) or mv.at is None or _stored_later(repo, fi, mv.at, "M")):
+            verdicts.append(None)
+            texts.append("for %s: not evaluated: %s" % (on, end))
+            continue
+        texts.append("for %s: self.M = %s, self.cov = %s" % (on, str(M)[:120], cv))
+        if isinstance(M, sp.Basic) and M == CHOL(cov_s) and cv == cov_s:
+            verdicts.append(True)
+            continue
+        if not mv.fork:
+            verdicts.append(False)      # the one path there is: nothing but the factor of cov will do
+            continue
+        d = scale_degree(M, cov_s) if isinstance(M, sp.Basic) and cv == cov_s else None
+        if d is not None and d != ANY_DEGREE and d != sp.Rational(1, 2) and all(scale_free_test(lf, cov_s) for _, leaves in tests for lf in leaves):
+            verdicts.append(False)
+            texts[-1] = ("M M^T = cov makes M scale with the square root of cov (the factor of c*cov is sqrt(c)*M); for %s -- tests that do not change when cov is "
+                         "scaled -- the constructor stores self.M = %s, which scales like c^%s: it is not a factor of cov, the samples are not mean + L z" % (on, str(M)[:120], d))
+            return False, texts[-1]
+        verdicts.append(None)
+    if not verdicts:
+        return None, "no path of the constructor completes"
+    if any(v is False for v in verdicts):
+        return False, "; ".join(texts)
+    return (None if any(v is None for v in verdicts) else True), "; ".join(texts)
+
+
 def cholesky(chk, repo):
     R = "R19.chol"
     fi = repo.func(RA + "CholeskySampler.__init__")
@@ -2975,7 +3517,20 @@ def cholesky(chk, repo):
     v, st, _ = mini_run(repo, fi.qualname, {"mean": mean_s, "cov": cov_s, "dist": dist_s})
     v0, st0, _ = mini_run(repo, fi.qualname, {"mean": mean_s, "cov": cov_s, "dist": None})
     if isinstance(v, NoVerdict) or isinstance(v0, NoVerdict) or not isinstance(st.get("self.M"), sp.Basic):
-        _none(chk, R, [fi.qualname + "::factor", fi.qualname + "::deviate-source"], fi.where(), "constructor not evaluated: %s" % (v if isinstance(v, NoVerdict) else v0))
+        # tests the arguments leave open (a shortcut for covariances of a special form): every path is evaluated
+        paths = mini_forks(repo, fi.qualname, {"mean": mean_s, "cov": cov_s, "dist": dist_s})
+        paths0 = mini_forks(repo, fi.qualname, {"mean": mean_s, "cov": cov_s, "dist": None})
+        okf, found = _stored_factor(repo, fi, paths, cov_s)
+        chk.ob(R, fi.qualname + "::factor", okf, fi.where(), "M is the (lower-triangular) Cholesky factor of the stored covariance on every path of the constructor (%s)" % found)
+        okd = None
+        if paths and paths0:
+            got = [(mv.state.get("self.dist"), want_) for ps, want_ in ((paths, dist_s), (paths0, sp.Symbol("numpy.random.randn"))) for end, mv in ps
+                   if end != "raised" and (end is None or ("self.dist" in mv.state and mv.at is not None and not _stored_later(repo, fi, mv.at, "dist")))]
+            if got and len(got) == len([1 for ps in (paths, paths0) for end, _ in ps if end != "raised"]):
+                okd = all(g == w_ for g, w_ in got)
+            elif any(g != w_ for g, w_ in got):
+                okd = False
+        chk.ob(R, fi.qualname + "::deviate-source", okd, fi.where(), "the deviate source is the one passed (default numpy.random.randn) on every path of the constructor")
     else:
         chk.ob(R, fi.qualname + "::factor", st.get("self.cov") == cov_s and st["self.M"] == CHOL(cov_s), fi.where(),
                "M is the (lower-triangular) Cholesky factor of the stored covariance (self.M = %s, self.cov = %s)" % (st["self.M"], st.get("self.cov")))
